@@ -466,10 +466,12 @@ def linear_nums(case: dict, prob: dict, b: int, ubar):
 
 
 def lqr_line(case: dict, prob: dict, b: int, ubar, dt: int = 1) -> str:
+    """`ubar` may have any number of steps: T steps -> flag 1, m != T steps -> flag 2+m (the model's wrong-length error branch)"""
     ns, nc, T = case["ns"], case["nc"], case["T"]
     qonce, ponce, hasc = arg_flags(case)
     nums, L = linear_nums(case, prob, b, ubar)
-    return f"c14.lqrx {ns} {nc} {T} {dt} {L} {0 if ubar is None else 1} {qonce} {ponce} {hasc} " + common.wire_list(nums)
+    hasu = 0 if ubar is None else (1 if np.asarray(ubar).shape[1] == T else 2 + np.asarray(ubar).shape[1])
+    return f"c14.lqrx {ns} {nc} {T} {dt} {L} {hasu} {qonce} {ponce} {hasc} " + common.wire_list(nums)
 
 
 def parse_lqr_reply(rep: str, ns: int, nc: int, T: int, gains: bool = True):
